@@ -175,7 +175,7 @@ func pointScenarios(f lib.Flags, points map[string]int) []Scenario {
 // randomScenarios: 0-8 subscribers with mixed options, 0-3 writers, cancels at random instants.
 func randomScenarios(f lib.Flags) []Scenario {
 	r := lib.NewRand(f.Seed*7919 + 10)
-	n := f.N(600, 4000)
+	n := f.N(480, 4000)
 	var res []Scenario
 	for i := 0; i < n; i++ {
 		sc := Scenario{Mode: "stress", Class: "random", BoundMs: boundMs(f)}
